@@ -68,7 +68,11 @@ RULE = ("contain: tree = root R (name generated) with fixed inner files, 0-3 sib
         "an earlier evaluation served content, after a tree change or under another root. "
         "deny: 2-7 specs over the nine factories, items drawn from a fixed tree / command vocabulary (file "
         "names with a blank, a run of blanks, a tab; command words separated by one blank, runs of blanks, "
-        "tabs; entries cut in front of any blank/tab of the command line), "
+        "tabs; entries cut in front of any blank/tab of the command line; ten file names - and three command "
+        "arguments - made of characters that are special to shell wildcards ([1] ? *), regular expressions "
+        "(+ ( | )), case folding (HOSTS next to hosts) or are non-ASCII, some with the file they would select "
+        "if read as a pattern next to them, reached literally, through wildcards and through patterns that spell "
+        "them with a class; near-miss entries also: the name glob-escaped / regex-escaped / in the other case), "
         "deny entries = items, word-boundary prefixes of commands, near misses and unrelated strings, "
         "denied component names (full names under 'components', symbolic names of nine shipped "
         "DefaultSpecs entries under files/commands); non-trivial: one factory has both a denied and an "
@@ -1220,10 +1224,23 @@ D_FILES = ["/etc/a.conf", "/etc/a.conf.bak", "/etc/a.con", "/etc/b.conf", "/etc/
            # names with blanks: one blank, a run of two, a tab (each the near miss of the others: a deny entry is
            # a literal string, "/etc/x  y.conf" is not "/etc/x y.conf")
            "/etc/x y.conf", "/etc/x  y.conf", "/var/log/t\tu.log", "/var/log/t u.log"]
+# Round 7: names made of characters that mean something in one of the matching languages a deny list could be
+# (mis)read in - shell wildcards ([...] ? *), regular expressions (+ ( | ) .), case folding, non-ASCII text.  They
+# are ordinary file names, a deny entry names them literally like any other.  Next to some of them the file the
+# name would select if it were read as a pattern ("app[1].conf" as a wildcard is "app1.conf").
+D_SPECIAL = ["/etc/app[1].conf", "/etc/app1.conf", "/etc/sub/n[eth0].cfg", "/etc/q?.conf", "/etc/qa.conf",
+             "/etc/s*r.conf", "/etc/a+b.conf", "/etc/(c|d).conf", "/etc/HOSTS", "/var/log/\u00e9t\u00e9.log"]
+D_PLAIN_COUNT = len(D_FILES)
+D_FILES = D_FILES + D_SPECIAL
 D_PATTERNS = ["/etc/*", "/etc/*.conf", "/etc/a.con*", "/etc/hosts*", "/var/log/m*", "/etc/sub/*", "/etc/*/*.conf",
-              "/*/*", "/top.txt", "/etc/[ab].conf", "/etc/x*", "/var/log/t*"]
+              "/*/*", "/top.txt", "/etc/[ab].conf", "/etc/x*", "/var/log/t*",
+              # wildcards that reach the special names, a class that spells the bracket literally, the special names
+              # themselves used as patterns (then they select what they match, not necessarily themselves)
+              "/etc/app*", "/etc/app[[]1].conf", "/etc/q?.conf", "/etc/s*r.conf", "/etc/sub/n*", "/etc/[a(]*",
+              "/var/log/*t*.log"]
 D_EXES = ["{X}/ls", "{X}/lsblk", "{X}/ls-l", "{X}/cat"]
-D_ARGS = ["-l", "-a", "-la", "/etc", "/etc/a.conf", "-l /etc", "--all -l", "x", "-l -a /var/log"]
+D_ARGS = ["-l", "-a", "-la", "/etc", "/etc/a.conf", "-l /etc", "--all -l", "x", "-l -a /var/log",
+          "[1]", "/etc/*.conf", "a+b"]
 # what separates the words of a command line: mostly one blank, sometimes a run of blanks / a tab (shipped
 # specs are written like that: "/usr/sbin/runuser -l  %s  -c 'db2 get dbm cfg'"); the deny list is matched
 # against the command line as the spec spells it
@@ -1445,10 +1462,17 @@ def check_deny(case):
                         st_["denied"] += 1
                         if "  " in f or "\t" in f:
                             labels.append("denied:file-with-blank-run")
+                        if f in D_SPECIAL:
+                            labels.append("denied:file-with-%s-in-name" % (
+                                "wildcard-characters" if re.search(r"[*?\[]", f) else
+                                "regex-characters" if re.search(r"[+(|]", f) else
+                                "non-ascii-text" if re.search(r"[^\x00-\x7f]", f) else "other-special"))
                     elif not comp_denied and any(os.path.normpath(p.path) == os.path.join(R, f.lstrip("/"))
                                                  for p in results[n]) and \
                             any((D_FILE_TOKEN % f) in t for _, t in persisted):
                         st_["allowed"] += 1
+                        if f in D_SPECIAL:
+                            labels.append("collected:file-with-special-name")
     nt = False
     for fac, c in sorted(per_factory.items()):
         if c["denied"]:
@@ -1512,7 +1536,9 @@ def _d_spec(draw, f=None):
         elif form == "/etc/%s":
             s["elems"] = [draw(st.sampled_from(["a.conf", "a.conf.bak", "a.con", "b.conf", "hosts", "hosts*",
                                                 "sub/c.conf", "*.conf", "a.con*", "x y.conf", "x  y.conf",
-                                                "x*"])) for _ in range(n)]
+                                                "x*", "app[1].conf", "app[[]1].conf", "app*", "q?.conf",
+                                                "a+b.conf", "(c|d).conf", "HOSTS", "sub/n[[]eth0].cfg"]))
+                          for _ in range(n)]
         elif form == "/%s/%s":
             s["elems"] = [[draw(st.sampled_from(["etc", "etc/sub", "var/log", "*"])),
                            draw(st.sampled_from(["a.conf", "c.conf", "m.log", "m*", "*.conf", "hosts", "t\tu.log",
@@ -1583,9 +1609,13 @@ def _d_case(draw):
         if r < 3:
             deny_files.append(f)
         elif r == 3:
+            # (the last four: the name with its wildcard / regex characters escaped, with the file name in the
+            #  other case - entries like any other, the literal rule says what they deny)
             deny_files.append(draw(st.sampled_from([f + ".bak", f[:-1], f.lstrip("/"), f.upper(), f + " ",
                                                     os.path.dirname(f) or "/", f + "/", "/." + f,
-                                                    "/etc/../" + f.lstrip("/")])))
+                                                    "/etc/../" + f.lstrip("/"), glob.escape(f), re.escape(f),
+                                                    os.path.dirname(f).rstrip("/") + "/" + os.path.basename(f).upper(),
+                                                    os.path.dirname(f).rstrip("/") + "/" + os.path.basename(f).lower()])))
     for c in cmds:
         r = draw(st.integers(0, 9))
         words = c.split()
@@ -1891,7 +1921,9 @@ def check_collect(case):
         for k, sp in enumerate(specs):
             if sp["kind"] == "file":
                 ws = sp.get("ws")
-                pth = os.path.join(src, "f%d%s.conf" % (k, ws + "x" if ws else ""))
+                # "sp": characters in the file name that are special to wildcards / regular expressions / case
+                # folding (the deny list names the file literally all the same)
+                pth = os.path.join(src, "f%d%s%s.conf" % (k, ws + "x" if ws else "", sp.get("sp") or ""))
                 with open(pth, "w") as f:
                     f.write("content of spec %d\nSECRET%d\n" % (k, k))
                 paths.append(pth)
@@ -1899,7 +1931,7 @@ def check_collect(case):
                 cmds.append(None)
                 body.append("    s%d = simple_file(%r)" % (k, pth))
             else:
-                mk = os.path.join(src, "marker%d" % k)
+                mk = os.path.join(src, "marker%d%s" % (k, sp.get("sp") or ""))
                 paths.append(None)
                 markers.append(mk)
                 cmds.append("/usr/bin/touch" + (sp.get("ws") or " ") + mk)
@@ -1982,8 +2014,9 @@ def check_collect(case):
         allowed = [k for k in range(len(specs)) if k not in denied]
         if allowed and not collected_any:
             raise HarnessError("nothing was collected although %d specs are not denied" % len(allowed))
-        labels = ["configs=" + cfg_style] + sorted(set("deny=%s/%s%s" % (
-            sp["deny"], sp["kind"], "/blank-run" if (sp.get("ws") or " ") != " " else "") for sp in specs))
+        labels = ["configs=" + cfg_style] + sorted(set("deny=%s/%s%s%s" % (
+            sp["deny"], sp["kind"], "/blank-run" if (sp.get("ws") or " ") != " " else "",
+            "/special-characters" if sp.get("sp") else "") for sp in specs))
         return {"nontrivial": bool(denied) and bool(allowed), "labels": labels}
     finally:
         if sys.path and sys.path[0] == os.path.join(work, "mods"):
@@ -1993,13 +2026,19 @@ def check_collect(case):
         shutil.rmtree(work, ignore_errors=True)
 
 
+# what a file name (the argument of a command) may contain besides letters: wildcard characters, characters of
+# regular expressions, upper case, non-ASCII text - none of them means anything to shlex or to a deny list
+C_SPECIAL = [None] * 6 + ["[1]", "[a-f]", "?", "*", "+", "(a|b)", "{2}", "^", "UP", "\u00e9"]
+
+
 @st.composite
 def _collect_case(draw):
     # "ws": a file name with a blank / a run of blanks / a tab in it, a command line whose words are separated
     # by more than one blank (the deny list names both literally)
     specs = draw(st.lists(st.fixed_dictionaries({"kind": st.sampled_from(["file", "file", "cmd"]),
                                                  "deny": st.sampled_from([None, None, "component", "component", "literal"]),
-                                                 "ws": st.sampled_from([None, None, None, " ", "  ", "\t", "   "])}),
+                                                 "ws": st.sampled_from([None, None, None, " ", "  ", "\t", "   "]),
+                                                 "sp": st.sampled_from(C_SPECIAL)}),
                           min_size=2, max_size=5))
     return {"specs": specs, "configs": draw(st.sampled_from(["module", "classes", "each"]))}
 
